@@ -47,7 +47,11 @@ func runHistory(c *lib.Ctx, seed int64, steps, maxLen int) []hevent {
 			break
 		}
 	}
-	live := []vector.Vector{prefill(base)[base]}
+	pre, bad := prefill(base)
+	if bad != "" {
+		return []hevent{{O: op{Op: "Panic"}, what: bad}}
+	}
+	live := []vector.Vector{pre[base]}
 	kinds := []string{"whole"}
 	readAll := func() ([][]rn, [][]rn) {
 		all, allit := make([][]rn, len(live)), make([][]rn, len(live))
@@ -164,14 +168,21 @@ func histories(c *lib.Ctx, dir string) error {
 		metas[h] = hmeta{c.Seed*100000 + int64(h), steps, maxLen}
 		hs[h] = runHistory(c, metas[h].Seed, steps, maxLen)
 	})
-	for _, h := range hs {
+	for hi, h := range hs {
+		if len(h) == 1 && h[0].O.Op == "Panic" {
+			c.Reject("vector:panic:build:Conj", h[0].what, map[string]any{"mode": "H", "hseed": metas[hi].Seed, "steps": steps, "maxlen": maxLen, "events": []hevent{}})
+			hs[hi] = nil
+			continue
+		}
 		for _, e := range h {
 			if e.O.Op != "Reset" && e.O.Op != "Drop" {
 				c.Distinct([]any{"H", e.O, e.R, e.All})
 			}
 		}
 	}
-	c.Sample(hs[0][:min(4, len(hs[0]))])
+	if len(hs[0]) > 0 {
+		c.Sample(hs[0][:min(4, len(hs[0]))])
+	}
 	c.AddTraces(nh)
 	return judgeHistories(c, dir, "TracePVector", hs, metas)
 }
